@@ -980,32 +980,35 @@ class ExcelCompiler:
     def _process_gen_graph(self):
 
         cell_todos = []
-        while self.graph_todos:
-            # connect the dependant cells in the graph
-            dependant = self.graph_todos.pop()
-
-            self.log.debug(f"Handling {dependant.address}")
-
-            for precedent_address in dependant.needed_addresses:
-                if precedent_address.address not in self.cell_map:
-                    self._gen_graph(precedent_address, recursed=True)
-
-                precedent = self.cell_map[precedent_address.address]
-                self.dep_graph.add_edge(precedent, dependant)
-
-                if (dependant.value is not None and precedent.value is None
-                        and precedent.formula and not self.cycles):
-                    # a stored result needs the values it was calculated
-                    # from, a formula stored without one (eg: "") is calced
-                    cell_todos.append(precedent_address.address)
-
-        # calc the values for ranges
         try:
+            while self.graph_todos:
+                # connect the dependant cells in the graph
+                dependant = self.graph_todos.pop()
+
+                self.log.debug(f"Handling {dependant.address}")
+
+                for precedent_address in dependant.needed_addresses:
+                    if precedent_address.address not in self.cell_map:
+                        self._gen_graph(precedent_address, recursed=True)
+
+                    precedent = self.cell_map[precedent_address.address]
+                    self.dep_graph.add_edge(precedent, dependant)
+
+                    if (dependant.value is not None and
+                            precedent.value is None and
+                            precedent.formula and not self.cycles):
+                        # a stored result needs the values it was calculated
+                        # from, a formula stored without one (eg: "") is calced
+                        cell_todos.append(precedent_address.address)
+
+            # calc the values for ranges
             for range_todo in reversed(self.range_todos):
                 self._evaluate_range(range_todo)
             for cell_todo in cell_todos:
                 self._evaluate(cell_todo)
         finally:
+            # also when connecting the graph failed: a range that can not be
+            # evaluated would fail every later graph construction
             self.range_todos = []
 
         self.log.info(
